@@ -11,6 +11,80 @@ use serde_json::json;
 
 pub struct C12;
 
+/// text / Display / JSON forms of a record of ANY key family (custom schemes included: their records
+/// can be much shorter or longer than those of the built-in types) and their parse-back
+pub fn text_forms_ok<K: crate::keys::Fam>(e: &enr::Enr<K>, s: &crate::exec::Snap) -> Result<(), String> {
+    use crate::exec::{guarded, snap};
+    let canon = format!("enr:{}", b64::encode(&s.enc));
+    let t = guarded(|| e.to_base64()).map_err(|p| format!("to_base64 panicked: {p}"))?;
+    if t != canon {
+        return Err(format!("to_base64() = {t:?}, expected {canon:?}"));
+    }
+    let d = format!("{e}");
+    if d != canon {
+        return Err(format!("Display = {d:?}, expected {canon:?}"));
+    }
+    let j = serde_json::to_string(e).map_err(|x| format!("serialize: {x}"))?;
+    if j != serde_json::to_string(&canon).unwrap() {
+        return Err(format!("JSON = {j}, expected the quoted text form"));
+    }
+    for (what, text) in [("text", canon.clone()), ("text without prefix", canon[4..].to_string())] {
+        match guarded(|| text.parse::<enr::Enr<K>>()).map_err(|p| format!("parse panicked: {p}"))? {
+            Ok(e2) => {
+                if e2 != *e || snap(&e2) != *s {
+                    return Err(format!("parsing the {what} gives a different record"));
+                }
+            }
+            Err(m) => return Err(format!("the canonical {what} {text:?} of a {}-byte record is rejected: {m}", s.enc.len())),
+        }
+    }
+    match guarded(|| serde_json::from_str::<enr::Enr<K>>(&j)).map_err(|p| format!("deserialize panicked: {p}"))? {
+        Ok(e2) if e2 == *e => {}
+        Ok(_) => return Err("JSON parses to a different record".into()),
+        Err(m) => return Err(format!("the JSON form of a {}-byte record is rejected: {m}", s.enc.len())),
+    }
+    for bad in [format!("{canon}="), format!("ENR:{}", &canon[4..]), format!("{canon} "), format!("enr:enr:{}", &canon[4..])] {
+        if let Ok(Ok(_)) = guarded(|| bad.parse::<enr::Enr<K>>()) {
+            return Err(format!("non-canonical text {bad:?} is accepted"));
+        }
+    }
+    Ok(())
+}
+
+struct TextV<'a> {
+    st: &'a mut Stats,
+    n: usize,
+    stop: bool,
+}
+impl<'a> crate::exec::Visitor for TextV<'a> {
+    fn step<K: crate::keys::Fam>(&mut self, cx: &crate::exec::StepCx<K>) -> Result<(), String> {
+        if self.stop || !cx.res.is_ok() {
+            return Ok(());
+        }
+        let (post, e) = match (cx.post, cx.enr) {
+            (Some(p), Some(e)) => (p, e),
+            _ => return Ok(()),
+        };
+        if cx.fam() == crate::keys::FamId::CombinedEd
+            && crate::props::hist::secp_valid_entry(&post.pairs)
+            && !crate::engine::strict()
+            && crate::engine::is_known(crate::props::c05::KNOWN_COMBINED_ED)
+        {
+            self.st.known(crate::props::c05::KNOWN_COMBINED_ED);
+            self.stop = true;
+            return Ok(());
+        }
+        self.st.evals(4);
+        self.n += 1;
+        self.st.label(match post.enc.len() {
+            0..=55 => "record-size:short-list-header",
+            56..=255 => "record-size:1-byte-length",
+            _ => "record-size:2-byte-length",
+        });
+        text_forms_ok::<K>(e, post).map_err(|m| format!("{}: {m}", crate::props::hist::describe_step(cx)))
+    }
+}
+
 pub const TEXT_MUTATIONS: [&str; 16] = [
     "valid",
     "valid-no-prefix",
@@ -169,7 +243,7 @@ impl Property for C12 {
         "C12"
     }
     fn rule(&self) -> String {
-        "cases: the text of an independently signed valid record, and strings derived from it: padding = / ==, appended or inserted characters (alphabet, + / and other foreign characters, whitespace, NUL, non-ASCII), alphabet swap, prefix variants (ENR:, Enr:, enr:enr:, enr, ' enr:', ...), trailing bits set in the last symbol, 1..6 arbitrary bytes or a second record appended before base64-encoding, truncated text, random strings, invalid records as text, double encoding. Oracle: parse (from_str and the JSON deserialiser, all four key types) succeeds iff the reference text parser accepts (literal optional enr: prefix, strict unpadded URL-safe base64, exactly one valid record, nothing after it), with identical fields; for every accepted record to_base64 == Display == JSON string == 'enr:'+reference base64 of its encoding. Non-trivial: a valid text, or a mutated string that leniently decodes to bytes beginning with a complete RLP list (only strictness can reject it). Distinct by hash of the string.".into()
+        "cases: the text of an independently signed valid record, and strings derived from it: padding = / ==, appended or inserted characters (alphabet, + / and other foreign characters, whitespace, NUL, non-ASCII), alphabet swap, prefix variants (ENR:, Enr:, enr:enr:, enr, ' enr:', ...), trailing bits set in the last symbol, 1..6 arbitrary bytes or a second record appended before base64-encoding, truncated text, random strings, invalid records as text, double encoding. Oracle: parse (from_str and the JSON deserialiser, all four key types) succeeds iff the reference text parser accepts (literal optional enr: prefix, strict unpadded URL-safe base64, exactly one valid record, nothing after it), with identical fields; for every accepted record to_base64 == Display == JSON string == 'enr:'+reference base64 of its encoding. Additionally, call histories of every key family (custom schemes give records from ~21 to 300 bytes, i.e. with a short list header, a 1-byte and a 2-byte length) are run and the text / Display / JSON forms of every record obtained are checked and parsed back. Non-trivial: a valid text, or a mutated string that leniently decodes to bytes beginning with a complete RLP list (only strictness can reject it). Distinct by hash of the string.".into()
     }
     fn assumptions(&self) -> Vec<String> {
         vec!["reference base64 codec and record decoder are hand-written from RFC 4648 section 5 and the C02 rule list".into()]
@@ -186,22 +260,40 @@ impl Property for C12 {
     }
     fn enumerate(&self, quick: bool) -> Box<dyn Iterator<Item = Case> + Send + '_> {
         let per = if quick { 40u64 } else { 500 };
-        Box::new(TEXT_MUTATIONS.iter().flat_map(move |m| {
+        let texts = TEXT_MUTATIONS.iter().flat_map(move |m| {
             (0..per).map(move |j| {
                 let e = det_entropy(&format!("c12/{m}"), j, 2000);
                 Case::Text(gen_case(&mut Choices::new(&e), Some(m)))
             })
-        }))
+        });
+        let fams = if quick { vec![crate::keys::FamId::Tiny, crate::keys::FamId::Wide] } else { crate::keys::ALL_FAMS.to_vec() };
+        let hists = fams.into_iter().flat_map(|f| crate::gen::history::exhaustive(f, 1)).map(Case::Hist);
+        Box::new(texts.chain(hists))
     }
     fn fuzz_plans(&self) -> Vec<(&'static str, u64)> {
         vec![("wire_struct", 20000)]
     }
     fn gen(&self, c: &mut Choices) -> Case {
+        if c.chance(40) {
+            // records of every key family (custom schemes give very short and very long records)
+            return Case::Hist(crate::gen::history::gen_history(c, None));
+        }
         Case::Text(gen_case(c, None))
     }
     fn check(&self, case: &Case, st: &mut Stats) -> Result<(), String> {
         let t = match case {
             Case::Text(t) => t,
+            Case::Hist(h) => {
+                let mut v = TextV { st, n: 0, stop: false };
+                crate::exec::run_history(h, false, &mut v)?;
+                let n = v.n;
+                st.label(&format!("hist:{}", h.fam.name()));
+                if n > 0 {
+                    st.nontrivial(h);
+                    st.sample(&format!("hist-{}", h.fam.name()), || json!(case));
+                }
+                return Ok(());
+            }
             _ => return Err("C12: wrong case type".into()),
         };
         let jq = serde_json::to_string(&t.s).unwrap();
@@ -308,6 +400,11 @@ impl Property for C12 {
         for m in TEXT_MUTATIONS {
             if st.labels.get(&format!("mut:{m}")).copied().unwrap_or(0) < 20 {
                 return Err(format!("mutation {m} under-represented"));
+            }
+        }
+        for l in ["record-size:short-list-header", "record-size:2-byte-length"] {
+            if st.labels.get(l).copied().unwrap_or(0) < 20 {
+                return Err(format!("{l} under-represented"));
             }
         }
         if st.labels.get("outcome:rejected-by-strictness-only").copied().unwrap_or(0) < 200 {
